@@ -357,6 +357,10 @@ def rule_r6(rep, program, et):
         r.inst({"ladder": cls, "sets": covered.get(cls)})
         if cls not in covered or not covered[cls][0] or covered[cls][1] != ["True"]:
             r.violate(PROP, f"_process_integrator_error:{cls}", f"{cls} is not recorded as a True flag in the transition statistics", node=pie.node, file=pie.file)
+    expected_key = {"mici.HamiltonianDivergenceError": "'diverging'", "mici.NonReversibleStepError": "'non_reversible_step'", "mici.ConvergenceError": "'convergence_error'"}
+    for cls, want in expected_key.items():
+        if cls in covered and covered[cls][0] and covered[cls][0] != [want]:
+            r.violate(PROP, f"_process_integrator_error:{cls}:key={covered[cls][0]}", f"{cls} is recorded under {covered[cls][0]} instead of {want}: the statistics report the wrong failure cause", node=pie.node, file=pie.file)
     # the ladder must test subclasses before superclasses (else shadowed)
     order = list(covered)
     for i, a in enumerate(order):
